@@ -134,7 +134,7 @@ JOBS['C06'] += [dynstep('dynstep_it_321', 1, 3, 2, 1), dynstep('dynstep_rng_321'
 JOBS['C15'] += [dynstep('dynstep_inv_322', 2, 3, 2, 2)]
 JOBS['C11'] = [mapped('mapped_u8_n2', 'uint8_t', 2), mapped('mapped_i8_n2', 'int8_t', 2), mapped('mapped_u8_n3_dense', 'uint8_t', 3, ord_hi=3), mapped('mapped_i8_n3', 'int8_t', 3, tiers=T, timeout=3000)]
 
-JOBS['C09'] = [bucketing('bucket_n2_t3', 2, 3), bucketing('bucket_n2_t4', 2, 4)]
+JOBS['C09'] = [bucketing('bucket_n2_t3', 2, 3), bucketing('bucket_n2_t4', 2, 4), bucketing('bucket_n3_t3', 3, 3), bucketing('bucket_n3_t4_dyn', 3, 4, topbits=0, tiers=T, timeout=3000), bucketing('bucket_n4_t6', 4, 6, tiers=T, timeout=4000)]
 JOBS['C02'] = JOBS['C01'] + [j_ for j_ in JOBS['C03'] if j_['name'] == 'mkseg_n3_e1_c2']
 JOBS['C07'] = [e2e('e2e_u8_n3_e1_r1', 'uint8_t', 3, 1, 1), e2e('e2e_i8_n2_e1_r1', 'int8_t', 2, 1, 1), e2e('e2e_u8_n4_e1_r1', 'uint8_t', 4, 1, 1, tiers=T, timeout=3000)]
 JOBS['C16'] = [e2e('frame_u8_n2_e1_r1', 'uint8_t', 2, 1, 1, extra=dict(WITH_FRAME=1)), e2e('frame_u8_n3_e1_r0', 'uint8_t', 3, 1, 0, extra=dict(WITH_FRAME=1))]
@@ -169,6 +169,9 @@ PROPS = {
                 explanation='Same container; traversal from begin() and from lower_bound(k), range(lo,hi), size(), empty() against the array map; one job per query group.'),
     'C07': dict(level='model_checking', outside=E2E_OUT + ['at n <= 4 upper levels hold one or two segments: a weak instance of the routing bound'], assumptions=MODEL,
                 explanation='The segment_for_key hook records the largest distance between the chosen segment and the predicted position; asserted <= EpsilonRecursive+1 in the e2e jobs with a recursive level.'),
+    'C09': dict(level='model_checking', outside=['n > 3 (quick) / 4 (thorough)', 'key types wider than 8 bits', 'Epsilon > 1', 'TopLevelSize other than 3, 4, 6', 'huge-page allocator paths of sdsl::memory_manager (asserted unreachable)'],
+                assumptions=MODEL + ['sdsl::int_vector and sdsl::memory_manager::resize are the real code on malloc/realloc; sdsl::memory_monitor::record (accounting) has an empty body'],
+                explanation='Real BucketingPGMIndex constructor (segmentation, build_top_level writing the real sdsl::int_vector) and search(): same contract as C01/C02 plus the empty ranges at 0 and n outside [first,last].'),
     'C11': dict(level='model_checking', outside=['file/mmap layer (data pointer aimed at the array through the accessor hook)', 'n > 3', 'Epsilon > 1'], assumptions=MODEL,
                 explanation='Real MappedPGMIndex::lower_bound/upper_bound/count/contains/begin/end/size on exact-n arrays with every duplicate structure against the std algorithms.'),
     'C13': dict(level='model_checking', outside=['more than 4 points', 'coordinates > 3', 'Dimensions 3 and 4, uint64_t', 'the default miss_threshold of 64 (hooked to 0/1 so that the bigmin jump runs)'], assumptions=MODEL,
